@@ -204,6 +204,95 @@ func mutatesRanged(info *types.Info, rs *ast.RangeStmt) bool {
 	return found
 }
 
+func hasValueMethod(t types.Type, name string) bool {
+	ms := types.NewMethodSet(t)
+	for i := 0; i < ms.Len(); i++ {
+		if ms.At(i).Obj().Name() == name {
+			return true
+		}
+	}
+	return false
+}
+
+func holdsPointer(t types.Type, depth int) bool {
+	switch u := t.Underlying().(type) {
+	case *types.Pointer, *types.Chan, *types.Signature:
+		return true
+	case *types.Basic:
+		return u.Kind() == types.UnsafePointer || u.Kind() == types.Uintptr
+	case *types.Struct:
+		if depth > 3 {
+			return false
+		}
+		for i := 0; i < u.NumFields(); i++ {
+			ft := u.Field(i).Type()
+			if _, isIface := ft.Underlying().(*types.Interface); isIface {
+				// an interface field usually holds a pointer (oneof wrappers, keepers)
+				if !hasValueMethod(ft, "Error") {
+					return true
+				}
+				continue
+			}
+			if _, isPtr := ft.Underlying().(*types.Pointer); isPtr {
+				// fmt prints &{...} for a pointer to struct only at depth 0; nested it prints the address
+				return true
+			}
+			if holdsPointer(ft, depth+1) {
+				return true
+			}
+		}
+	case *types.Array:
+		return holdsPointer(u.Elem(), depth+1)
+	case *types.Slice:
+		if depth > 3 {
+			return false
+		}
+		return holdsPointerElem(u.Elem(), depth+1)
+	}
+	return false
+}
+
+func holdsPointerElem(t types.Type, depth int) bool {
+	if p, ok := t.Underlying().(*types.Pointer); ok {
+		// []*T prints addresses unless *T is a Stringer
+		return !hasValueMethod(p, "String") && !hasValueMethod(p, "Error")
+	}
+	if hasValueMethod(t, "String") || hasValueMethod(t, "Error") {
+		return false
+	}
+	return holdsPointer(t, depth)
+}
+
+// printsAddress: a non-pointer struct (or array / slice of such) value that fmt walks field by
+// field and that contains a pointer somewhere below the top level.
+func printsAddress(t types.Type) bool {
+	if _, isPtr := t.Underlying().(*types.Pointer); isPtr {
+		return false // &{...} at top level, or the pointer type's own String method
+	}
+	if _, isIface := t.Underlying().(*types.Interface); isIface {
+		return false // dynamic type unknown
+	}
+	if hasValueMethod(t, "String") || hasValueMethod(t, "Error") || hasValueMethod(t, "Format") || hasValueMethod(t, "GoString") {
+		return false
+	}
+	switch t.Underlying().(type) {
+	case *types.Struct, *types.Array, *types.Slice:
+		return holdsPointer(t, 0)
+	}
+	return false
+}
+
+// concurrencyPkg: libraries whose purpose is to run or coordinate goroutines.
+func concurrencyPkg(path string) bool {
+	for _, p := range []string{"golang.org/x/sync/", "github.com/sourcegraph/conc", "go.uber.org/atomic",
+		"github.com/panjf2000/ants", "github.com/gammazero/workerpool"} {
+		if strings.HasPrefix(path, p) {
+			return true
+		}
+	}
+	return false
+}
+
 func exprText(e ast.Expr) string {
 	var buf bytes.Buffer
 	if err := printer.Fprint(&buf, token.NewFileSet(), e); err != nil {
@@ -289,6 +378,12 @@ func scanFile(pkg *packages.Package, f *ast.File) {
 			}
 		case *ast.GoStmt:
 			add(stack, x, "KGo", norm(fset, x.Call.Fun), x)
+		case *ast.ImportSpec:
+			if ip := strings.Trim(x.Path.Value, "\""); concurrencyPkg(ip) || ip == "sync" || ip == "sync/atomic" || ip == "runtime" || ip == "os/signal" {
+				add(stack, x, "KGo", "import "+ip, x)
+			}
+		case *ast.ChanType:
+			add(stack, x, "KSelect", "channel type "+norm(fset, x), enclosingStmt())
 		case *ast.SelectStmt:
 			add(stack, x, "KSelect", "select", x)
 		case *ast.SendStmt:
@@ -356,17 +451,57 @@ func scanFile(pkg *packages.Package, f *ast.File) {
 					}
 					add(stack, x, k, "reflect."+obj.Name(), enclosingStmt())
 				}
-			case "sync":
+			case "sync", "sync/atomic":
+				// any use of a synchronisation primitive (WaitGroup, Once, Mutex, Pool, atomics, ...):
+				// concurrency is in play even without a `go` statement in this package
 				if obj.Name() == "Range" {
 					add(stack, x, "KMapIter", "sync.Map.Range", enclosingStmt())
 				}
-			case "runtime":
+				add(stack, x, "KGo", obj.Pkg().Path()+"."+obj.Name(), enclosingStmt())
+			case "runtime", "os/signal":
+				add(stack, x, "KGo", obj.Pkg().Path()+"."+obj.Name(), enclosingStmt())
+			case "context":
 				switch obj.Name() {
-				case "NumGoroutine", "Gosched", "GOMAXPROCS", "NumCPU":
-					add(stack, x, "KGo", "runtime."+obj.Name(), enclosingStmt())
+				case "WithCancel", "WithCancelCause", "WithTimeout", "WithTimeoutCause", "WithDeadline", "WithDeadlineCause", "AfterFunc":
+					add(stack, x, "KGo", "context."+obj.Name()+" (cancellation-driven fan-out)", enclosingStmt())
+				}
+			default:
+				if concurrencyPkg(obj.Pkg().Path()) {
+					add(stack, x, "KGo", obj.Pkg().Path()+"."+obj.Name(), enclosingStmt())
 				}
 			}
 		case *ast.CallExpr:
+			// a method (or function-valued field) called Go on a type of another package starts
+			// work concurrently by convention (errgroup.Group, conc pools, worker pools, ...)
+			if sel, ok := x.Fun.(*ast.SelectorExpr); ok && sel.Sel.Name == "Go" {
+				if tv, ok := info.Types[sel.X]; ok && tv.Type != nil && !tv.IsType() {
+					t := tv.Type
+					if p, ok := t.(*types.Pointer); ok {
+						t = p.Elem()
+					}
+					local := false
+					if n, ok := t.(*types.Named); ok && n.Obj().Pkg() != nil && n.Obj().Pkg() == pkg.Types {
+						local = true
+					}
+					if !local {
+						add(stack, x, "KGo", "method Go on "+types.TypeString(tv.Type, nil), enclosingStmt())
+					}
+				}
+			}
+			// a struct holding a pointer, formatted by value by a printf-like function, prints the
+			// address unless the value type itself implements Stringer / error / Formatter
+			if sig, ok := info.TypeOf(x.Fun).(*types.Signature); ok && sig.Variadic() && !x.Ellipsis.IsValid() {
+				np := sig.Params().Len()
+				if sl, ok := sig.Params().At(np - 1).Type().(*types.Slice); ok {
+					if it, ok := sl.Elem().Underlying().(*types.Interface); ok && it.Empty() && len(x.Args) >= np {
+						for _, a := range x.Args[np-1:] {
+							if at := info.TypeOf(a); at != nil && printsAddress(at) {
+								add(stack, a, "KPointer", "value of "+types.TypeString(at, nil)+" (holds a pointer, no value-receiver String/Error/Format) passed to a print-like function", enclosingStmt())
+							}
+						}
+					}
+				}
+			}
 			// conversion to uintptr
 			if tv, ok := info.Types[x.Fun]; ok && tv.IsType() {
 				if b, ok := tv.Type.Underlying().(*types.Basic); ok && (b.Kind() == types.Uintptr || b.Kind() == types.UnsafePointer) {
